@@ -22,6 +22,7 @@ import (
 	"lunar/toolkit-core/logging"
 	"lunar/toolkit-core/network"
 	"lunar/toolkit-core/otel"
+	"lunar/toolkit-core/verifhook"
 	"net/http"
 	"sync"
 	"time"
@@ -241,6 +242,7 @@ func (rd *HandlingDataManager) initializeStreams() (err error) {
 		return fmt.Errorf("failed to create stream: %w", err)
 	}
 	rd.stream = stream
+	verifhook.Yield("reload.published_not_initialised")
 	rd.stream.WithHub(rd.lunarHub)
 	if err = rd.stream.Initialize(); err != nil {
 		return fmt.Errorf("failed to initialize streams: %w", err)
